@@ -1,1 +1,544 @@
-fn main() {}
+//! C20 — HTTP extractors add nothing and lose nothing (exploration, differential).
+//!
+//! vhttp --tier quick|thorough          (or env VERIF_TIER)
+//! vhttp --replay <file>                re-run one recorded request
+mod gen;
+mod run;
+mod types;
+
+use serde_json::{json, Value};
+use vcore::evidence::{Acc, Finish};
+use vcore::{Ctx, Rng, Tier};
+
+use deserr::errors::JsonError;
+use gen::{JsonReq, QueryReq, JSON_ERRORS, JSON_TARGETS, QUERY_ERRORS, QUERY_TARGETS};
+use run::PairResult;
+use types::{Doc, QpErr, Search, Shape, StrMap, E422};
+
+const RULE: &str = "for the same request: framework extractor rejects => deserr extractor rejects with the same error object, status, content type, body and text; \
+framework yields v and deserr::deserialize::<T,_,E>(v) = Ok(x) => extractor Ok(x); = Err(e) => rejection carrying e, whose response is e's \
+(JsonError: 400 text/plain e.to_string(); E422: 422 application/json structured body)";
+
+#[derive(Clone, Debug)]
+enum Req {
+    Json { framework: &'static str, req: JsonReq },
+    Query(QueryReq),
+}
+
+#[derive(Clone, Debug)]
+struct Case {
+    target: &'static str,
+    error: &'static str,
+    req: Req,
+}
+
+fn intern(s: &str, table: &[&'static str]) -> Option<&'static str> {
+    table.iter().copied().find(|t| *t == s)
+}
+
+fn execute(c: &Case) -> Result<PairResult, String> {
+    macro_rules! json_go {
+        ($T:ty, $E:ty, $fw:expr, $r:expr) => {
+            if $fw == "actix" {
+                run::actix_json::<$T, $E>($r)
+            } else {
+                run::axum_json::<$T, $E>($r)
+            }
+        };
+    }
+    Ok(match &c.req {
+        Req::Json { framework, req } => match (c.target, c.error) {
+            ("Doc", "JsonError") => json_go!(Doc, JsonError, *framework, req),
+            ("Doc", "E422") => json_go!(Doc, E422, *framework, req),
+            ("Shape", "JsonError") => json_go!(Shape, JsonError, *framework, req),
+            ("Shape", "E422") => json_go!(Shape, E422, *framework, req),
+            ("VecU8", "JsonError") => json_go!(Vec<u8>, JsonError, *framework, req),
+            ("VecU8", "E422") => json_go!(Vec<u8>, E422, *framework, req),
+            ("Value", "JsonError") => json_go!(Value, JsonError, *framework, req),
+            ("Value", "E422") => json_go!(Value, E422, *framework, req),
+            (t, e) => return Err(format!("no instantiation for target {t} / error {e}")),
+        },
+        Req::Query(q) => match (c.target, c.error) {
+            ("Search", "JsonError") => run::actix_query::<Search, JsonError>(q),
+            ("Search", "E422") => run::actix_query::<Search, E422>(q),
+            ("Search", "QueryParamError") => run::actix_query::<Search, QpErr>(q),
+            ("StrMap", "JsonError") => run::actix_query::<StrMap, JsonError>(q),
+            ("StrMap", "E422") => run::actix_query::<StrMap, E422>(q),
+            ("StrMap", "QueryParamError") => run::actix_query::<StrMap, QpErr>(q),
+            ("Value", "JsonError") => run::actix_query::<Value, JsonError>(q),
+            ("Value", "E422") => run::actix_query::<Value, E422>(q),
+            ("Value", "QueryParamError") => run::actix_query::<Value, QpErr>(q),
+            (t, e) => return Err(format!("no instantiation for query target {t} / error {e}")),
+        },
+    })
+}
+
+fn case_to_json(c: &Case) -> Value {
+    let (framework, request) = match &c.req {
+        Req::Json { framework, req } => (*framework, run::json_req_to_json(req)),
+        Req::Query(q) => ("actix", run::query_req_to_json(q)),
+    };
+    json!({"framework": framework, "target": c.target, "error_type": c.error, "request": request})
+}
+
+fn case_from_json(v: &Value) -> Result<Case, String> {
+    let s = |v: &Value, k: &str| v.get(k).and_then(|x| x.as_str()).map(|x| x.to_string()).ok_or(format!("missing {k}"));
+    let framework = s(v, "framework")?;
+    let target = s(v, "target")?;
+    let error = s(v, "error_type")?;
+    let r = v.get("request").ok_or("missing request")?;
+    let kind = s(r, "kind")?;
+    if kind == "query" {
+        let via = if s(r, "via")? == "from_request" { "from_request" } else { "from_query" };
+        return Ok(Case {
+            target: intern(&target, QUERY_TARGETS).ok_or("unknown target")?,
+            error: intern(&error, QUERY_ERRORS).ok_or("unknown error type")?,
+            req: Req::Query(QueryReq { query: s(r, "query")?, via, class: s(r, "class").unwrap_or_default() }),
+        });
+    }
+    let hexf = |k: &str| -> Result<Vec<u8>, String> { gen::unhex(&s(r, k)?).ok_or(format!("bad hex in {k}")) };
+    let content_type = match r.get("content_type_hex") {
+        Some(Value::String(h)) => Some(gen::unhex(h).ok_or("bad hex in content_type_hex")?),
+        _ => None,
+    };
+    let req = JsonReq {
+        method: intern(&s(r, "method")?, &["POST", "PUT", "PATCH"]).ok_or("unknown method")?,
+        content_type,
+        content_length: r.get("content_length_header").and_then(|x| x.as_str()).map(|x| x.to_string()),
+        prefix: hexf("body_prefix_hex")?,
+        pad: r.get("body_pad_spaces").and_then(|x| x.as_u64()).unwrap_or(0) as usize,
+        suffix: hexf("body_suffix_hex")?,
+        cfg: gen::Cfg::from_json(r.get("config").unwrap_or(&json!("default"))).ok_or("bad config")?,
+        chunks: r.pointer("/transport/chunks").and_then(|x| x.as_u64()).unwrap_or(1) as usize,
+        fail: r.pointer("/transport/cut").and_then(|x| x.as_bool()).unwrap_or(false),
+        class: s(r, "class").unwrap_or_default(),
+    };
+    Ok(Case {
+        target: intern(&target, JSON_TARGETS).ok_or("unknown target")?,
+        error: intern(&error, JSON_ERRORS).ok_or("unknown error type")?,
+        req: Req::Json { framework: intern(&framework, &["actix", "axum"]).ok_or("unknown framework")?, req },
+    })
+}
+
+fn random_case(r: &mut Rng) -> Case {
+    match r.below(10) {
+        0..=3 | 4..=7 => {
+            let framework = if r.chance(1, 2) { "actix" } else { "axum" };
+            let target = *r.pick(JSON_TARGETS);
+            let error = *r.pick(JSON_ERRORS);
+            Case { target, error, req: Req::Json { framework, req: gen::gen_json_req(target, r) } }
+        }
+        _ => Case { target: *r.pick(QUERY_TARGETS), error: *r.pick(QUERY_ERRORS), req: Req::Query(gen::gen_query_req(r)) },
+    }
+}
+
+/// Seed-independent part: every content type through every (framework, target, error type) with a valid body, and a
+/// fixed list of query strings through every (target, error type, entry point).
+fn catalogue(seed: u64) -> Vec<Case> {
+    let mut out = vec![];
+    let mut cts: Vec<Option<Vec<u8>>> = vec![None];
+    let mut r = Rng::derive(seed, 0xCA7A, 0);
+    // harvest the generator's content types
+    let mut seen = std::collections::BTreeSet::new();
+    for _ in 0..4000 {
+        let q = gen::gen_json_req("Doc", &mut r);
+        if let Some(ct) = q.content_type {
+            if seen.insert(ct.clone()) {
+                cts.push(Some(ct));
+            }
+        }
+    }
+    for framework in ["actix", "axum"] {
+        for &target in JSON_TARGETS {
+            for &error in JSON_ERRORS {
+                for ct in &cts {
+                    for variant in 0..2 {
+                        let doc = if variant == 0 { gen::valid_doc(target, &mut r) } else { gen::illtyped_doc(target, &mut r).0 };
+                        out.push(Case {
+                            target,
+                            error,
+                            req: Req::Json {
+                                framework,
+                                req: JsonReq {
+                                    method: "POST",
+                                    content_type: ct.clone(),
+                                    content_length: Some(serde_json::to_vec(&doc).unwrap().len().to_string()),
+                                    prefix: serde_json::to_vec(&doc).unwrap(),
+                                    pad: 0,
+                                    suffix: vec![],
+                                    cfg: gen::Cfg::Default,
+                                    chunks: 1,
+                                    fail: false,
+                                    class: if variant == 0 { "valid".into() } else { "illtyped:catalogue".into() },
+                                },
+                            },
+                        });
+                    }
+                }
+            }
+        }
+    }
+    const QS: &[(&str, &str)] = &[
+        ("q=kefir", "valid"),
+        ("q=kefir&limit=5&offset=-3&filter=a%20b&sortBy=price%3Aasc", "valid"),
+        ("q=hello+world", "valid"),
+        ("q=%C3%A9", "valid"),
+        ("", "degenerate"),
+        ("&&", "degenerate"),
+        ("q", "noise"),
+        ("q=", "valid"),
+        ("=v&q=x", "noise"),
+        ("limit=5", "illtyped"),
+        ("q=x&limit=abc", "illtyped"),
+        ("q=x&limit=4294967296", "illtyped"),
+        ("q=x&limit=-1", "illtyped"),
+        ("q=x&unknown=1", "illtyped"),
+        ("q=x&sort_by=a", "illtyped"),
+        ("q=a&q=b", "repeated"),
+        ("limit=1&q=x&limit=2&limit=zz", "repeated"),
+        ("limit=zz&q=x&limit=2", "repeated"),
+        ("q=%E9%", "percent_and_unicode"),
+        ("q=%00", "percent_and_unicode"),
+        ("q=%zz&filter=%", "percent_and_unicode"),
+        ("q=é&filter=日本語", "percent_and_unicode"),
+        ("q=a%26limit%3D3", "percent_and_unicode"),
+        ("q=1#frag&limit=2", "noise"),
+        ("q=a=b", "noise"),
+        ("q=x&&limit=3&", "noise"),
+        ("q[]=1&q[]=2", "illtyped"),
+    ];
+    for &target in QUERY_TARGETS {
+        for &error in QUERY_ERRORS {
+            for via in ["from_query", "from_request"] {
+                for (q, class) in QS {
+                    out.push(Case { target, error, req: Req::Query(QueryReq { query: q.to_string(), via, class: class.to_string() }) });
+                }
+            }
+        }
+    }
+    out
+}
+
+/// Controls the oracle side must trivially get right, and the replay encoding must round-trip; otherwise the run says
+/// nothing about deserr and is reported inconclusive.
+fn self_checks(seed: u64) -> Vec<String> {
+    let mut bad = vec![];
+    let ctl = |framework: &'static str, ct: Option<&[u8]>, body: &[u8]| Case {
+        target: "Shape",
+        error: "JsonError",
+        req: Req::Json {
+            framework,
+            req: JsonReq {
+                method: "POST",
+                content_type: ct.map(|c| c.to_vec()),
+                content_length: None,
+                prefix: body.to_vec(),
+                pad: 0,
+                suffix: vec![],
+                cfg: gen::Cfg::Default,
+                chunks: 1,
+                fail: false,
+                class: "control".into(),
+            },
+        },
+    };
+    let controls: Vec<(Case, &str)> = vec![
+        (ctl("actix", Some(b"application/json"), br#"{"type":"circle","radius":3}"#), "accepted_nondefault"),
+        (ctl("axum", Some(b"application/json"), br#"{"type":"circle","radius":3}"#), "accepted_nondefault"),
+        (ctl("actix", Some(b"application/json"), b"{"), "fw_reject.400"),
+        (ctl("axum", Some(b"application/json"), b"{"), "fw_reject.400"),
+        (ctl("actix", Some(b"text/plain"), b"{}"), "fw_reject.400"),
+        (ctl("axum", Some(b"text/plain"), b"{}"), "fw_reject.415"),
+        (ctl("actix", Some(b"application/json"), br#"{"type":"circle"}"#), "deserr_reject.JsonError"),
+        (ctl("axum", Some(b"application/json"), br#"{"type":"circle"}"#), "deserr_reject.JsonError"),
+        (
+            Case { target: "Search", error: "JsonError", req: Req::Query(QueryReq { query: "q=a+b&limit=7".into(), via: "from_query", class: "control".into() }) },
+            "accepted_nondefault",
+        ),
+        (
+            Case { target: "Search", error: "JsonError", req: Req::Query(QueryReq { query: "limit=x".into(), via: "from_request", class: "control".into() }) },
+            "deserr_reject.JsonError",
+        ),
+    ];
+    for (c, want) in &controls {
+        match execute(c) {
+            Ok(p) if p.outcome_class == *want => {}
+            Ok(p) => bad.push(format!("control request: the oracle gave {} where {} is certain ({})", p.outcome_class, want, case_to_json(c)["request"])),
+            Err(e) => bad.push(e),
+        }
+    }
+    // replay encoding round-trip
+    for i in 0..300u64 {
+        let mut r = Rng::derive(seed, i, 0x7E57);
+        let c = random_case(&mut r);
+        let back = case_from_json(&case_to_json(&c));
+        let same = match (&c.req, back.as_ref().map(|b| (&b.req, b.target, b.error))) {
+            (Req::Json { framework: f1, req: a }, Ok((Req::Json { framework: f2, req: b }, t, e))) => {
+                f1 == f2
+                    && t == c.target
+                    && e == c.error
+                    && a.method == b.method
+                    && a.content_type == b.content_type
+                    && a.content_length == b.content_length
+                    && a.body() == b.body()
+                    && a.cfg == b.cfg
+                    && a.chunks == b.chunks
+                    && a.fail == b.fail
+            }
+            (Req::Query(a), Ok((Req::Query(b), t, e))) => t == c.target && e == c.error && a.query == b.query && a.via == b.via,
+            _ => false,
+        };
+        if !same {
+            bad.push(format!("the replay encoding does not round-trip for generated request #{i}"));
+            break;
+        }
+    }
+    bad
+}
+
+fn ctype_class(ct: &Option<Vec<u8>>) -> String {
+    match ct {
+        None => "<missing>".into(),
+        Some(b) => String::from_utf8_lossy(b).to_string(),
+    }
+}
+
+fn account(acc: &mut Acc, c: &Case, p: &PairResult) {
+    acc.eval();
+    let (class, ct, cfg) = match &c.req {
+        Req::Json { req, .. } => (req.class.clone(), ctype_class(&req.content_type), req.cfg.name()),
+        Req::Query(q) => (q.class.clone(), String::new(), ""),
+    };
+    acc.count(&format!("{}.{}", p.framework, p.outcome_class));
+    acc.count(&format!("class.{}", class.split(':').next().unwrap_or("")));
+    acc.note("request_classes", &class);
+    acc.note("instantiations", &format!("{}<{},{}>", p.framework, c.target, c.error));
+    if !ct.is_empty() || matches!(c.req, Req::Json { .. }) {
+        acc.note("content_types", &format!("{ct:?}"));
+        acc.count(&format!("config.{cfg}"));
+    }
+    if p.outcome_class.starts_with("fw_reject") {
+        acc.note("framework_rejections", &format!("{} {}", p.framework, p.shape));
+        let fw = p.framework.split('/').next().unwrap_or(p.framework);
+        let origin = p.shape.split('|').next().unwrap_or("");
+        let origin = if origin.starts_with("other:") { "custom error handler (InternalError)" } else { origin };
+        acc.count(&format!("passed_through.{fw}.{origin}"));
+    }
+    if p.nontrivial {
+        acc.nontrivial(&(p.framework, c.target, c.error, &class, &ct, cfg, &p.outcome_class, &p.shape));
+    }
+    if let Some(m) = &p.oracle_panic {
+        acc.inconclusive(format!("the framework's own extractor panicked ({}): {}", p.framework, m));
+    }
+    if let Some((what, _)) = p.diffs.first() {
+        let fw = p.framework.split('/').next().unwrap_or(p.framework);
+        let signature = if what == "panic" { format!("C20/{fw}/panic") } else { format!("C20/{fw}/{what}/{}", c.target) };
+        let mut w = case_to_json(c);
+        w["entry"] = json!(p.framework);
+        w["expected"] = p.expected.clone();
+        w["observed"] = p.observed.clone();
+        w["differences"] = json!(p.diffs.iter().map(|(a, b)| json!({"what": a, "detail": b})).collect::<Vec<_>>());
+        acc.count("disagreements");
+        acc.violation(signature, RULE, w);
+    }
+}
+
+fn sample_json(c: &Case, p: &PairResult) -> Value {
+    let mut w = case_to_json(c);
+    // keep samples small
+    if let Some(r) = w.get_mut("request").and_then(|r| r.as_object_mut()) {
+        r.remove("body_prefix_hex");
+        r.remove("body_suffix_hex");
+        r.remove("content_type_hex");
+    }
+    w["entry"] = json!(p.framework);
+    w["oracle"] = p.expected.clone();
+    w["extractor"] = p.observed.clone();
+    w["agree"] = json!(p.diffs.is_empty());
+    w
+}
+
+fn replay(path: &str) -> i32 {
+    let txt = match std::fs::read_to_string(path) {
+        Ok(t) => t,
+        Err(e) => {
+            println!("INCONCLUSIVE property=C20 reason=cannot read replay file {path}: {e}");
+            return 2;
+        }
+    };
+    let v: Value = match serde_json::from_str(&txt) {
+        Ok(v) => v,
+        Err(e) => {
+            println!("INCONCLUSIVE property=C20 reason=replay file is not JSON: {e}");
+            return 2;
+        }
+    };
+    let w = v.get("witness").unwrap_or(&v);
+    let case = match case_from_json(w) {
+        Ok(c) => c,
+        Err(e) => {
+            println!("INCONCLUSIVE property=C20 reason=replay file does not describe a C20 request: {e}");
+            return 2;
+        }
+    };
+    let p = match execute(&case) {
+        Ok(p) => p,
+        Err(e) => {
+            println!("INCONCLUSIVE property=C20 reason={e}");
+            return 2;
+        }
+    };
+    println!("request : {}", serde_json::to_string(&sample_json(&case, &p)["request"]).unwrap());
+    println!("entry   : {}  target={} error={}", p.framework, case.target, case.error);
+    println!("oracle  : {}", p.expected);
+    println!("observed: {}", p.observed);
+    if let Some(m) = &p.oracle_panic {
+        println!("INCONCLUSIVE property=C20 reason=the framework's own extractor panicked: {m}");
+        return 2;
+    }
+    if p.diffs.is_empty() {
+        println!("C20 replay: the two outcomes agree");
+        0
+    } else {
+        for (a, b) in &p.diffs {
+            println!("  differs: {a} {b}");
+        }
+        println!("VIOLATION property=C20 replay={path}");
+        1
+    }
+}
+
+fn main() {
+    let args: Vec<String> = std::env::args().skip(1).collect();
+    let mut tier = std::env::var("VERIF_TIER").unwrap_or_else(|_| "quick".into());
+    let mut replay_file = None;
+    let mut i = 0;
+    while i < args.len() {
+        match args[i].as_str() {
+            "--tier" if i + 1 < args.len() => {
+                tier = args[i + 1].clone();
+                i += 1;
+            }
+            "--replay" if i + 1 < args.len() => {
+                replay_file = Some(args[i + 1].clone());
+                i += 1;
+            }
+            "quick" | "thorough" => tier = args[i].clone(),
+            other => {
+                eprintln!("usage: vhttp [--tier quick|thorough] [--replay FILE]   (unexpected argument {other:?})");
+                std::process::exit(2);
+            }
+        }
+        i += 1;
+    }
+    // panics inside extractors are caught and reported as violations; keep stderr readable
+    std::panic::set_hook(Box::new(|_| {}));
+
+    if let Some(f) = replay_file {
+        std::process::exit(replay(&f));
+    }
+    let tier = match tier.as_str() {
+        "quick" => Tier::Quick,
+        "thorough" => Tier::Thorough,
+        other => {
+            println!("INCONCLUSIVE property=C20 reason=unknown tier {other:?}");
+            std::process::exit(2);
+        }
+    };
+    let mut ctx = Ctx::new("C20", tier);
+    let seed = ctx.seed;
+    let n_random: u64 = std::env::var("VHTTP_REQUESTS").ok().and_then(|s| s.parse().ok()).unwrap_or(tier.pick(4_000, 200_000));
+    let cat = catalogue(seed);
+
+    let pre = self_checks(seed);
+
+    let mut acc = ctx.par(|shard, nshards| {
+        let mut acc = Acc::new();
+        for (i, c) in cat.iter().enumerate() {
+            if i % nshards != shard {
+                continue;
+            }
+            match execute(c) {
+                Ok(p) => account(&mut acc, c, &p),
+                Err(e) => acc.inconclusive(e),
+            }
+        }
+        let mut i = shard as u64;
+        while i < n_random {
+            let mut r = Rng::derive(seed, i, 0xC20);
+            let c = random_case(&mut r);
+            match execute(&c) {
+                Ok(p) => account(&mut acc, &c, &p),
+                Err(e) => acc.inconclusive(e),
+            }
+            i += nshards as u64;
+        }
+        acc
+    });
+
+    for r in pre {
+        acc.inconclusive(r);
+    }
+    // samples: one actual request per outcome class, found by a deterministic scan on this thread
+    let wanted = [
+        ("actix-json", "fw_reject"),
+        ("actix-json", "deserr_reject"),
+        ("axum-json", "fw_reject"),
+        ("axum-json", "deserr_reject"),
+        ("axum-json", "accepted_nondefault"),
+        ("actix-query", "deserr_reject"),
+    ];
+    let mut samples: Vec<Option<Value>> = vec![None; wanted.len()];
+    for i in 0..3000u64 {
+        if samples.iter().all(|s| s.is_some()) {
+            break;
+        }
+        let mut r = Rng::derive(seed, i, 0x5A11);
+        let c = random_case(&mut r);
+        if let Ok(p) = execute(&c) {
+            for (k, (fw, oc)) in wanted.iter().enumerate() {
+                if samples[k].is_none() && p.framework.starts_with(fw) && p.outcome_class.starts_with(oc) {
+                    samples[k] = Some(sample_json(&c, &p));
+                    break;
+                }
+            }
+        }
+    }
+    acc.samples = samples.into_iter().flatten().collect();
+    if acc.samples.len() < wanted.len() {
+        acc.inconclusive("the generator did not produce every outcome class (framework rejection, deserr rejection, accepted) for the samples");
+    }
+    for need in ["actix-json.accepted_nondefault", "axum-json.accepted_nondefault", "actix-json.deserr_reject.E422", "axum-json.deserr_reject.E422"] {
+        if acc.counters.get(need).copied().unwrap_or(0) == 0 {
+            acc.inconclusive(format!("no request with outcome {need} was executed"));
+        }
+    }
+    if !acc.counters.keys().any(|k| k.starts_with("actix-json.fw_reject")) || !acc.counters.keys().any(|k| k.starts_with("axum-json.fw_reject")) {
+        acc.inconclusive("no framework-level rejection was executed");
+    }
+    ctx.extra.insert("catalogue_requests".into(), json!(cat.len()));
+    ctx.extra.insert(
+        "distinct_nontrivial_key".into(),
+        json!("(entry point, target, error type, request class, content type, extractor config, outcome class, rejection shape = error kinds+locations / message with data stripped)"),
+    );
+    ctx.extra.insert("random_requests".into(), json!(n_random));
+    ctx.extra.insert("json_targets".into(), json!(JSON_TARGETS));
+    ctx.extra.insert("query_targets".into(), json!(QUERY_TARGETS));
+    ctx.extra.insert("error_types".into(), json!(QUERY_ERRORS));
+
+    let code = ctx.finish(
+        acc,
+        Finish {
+            level: "exploration",
+            rule: RULE.to_string(),
+            exhaustive: false,
+            assumptions: vec![
+                "the extractor futures are driven with futures::executor::block_on on hand-built requests (actix TestRequest::to_http_parts, http::Request<axum::body::Body>); no server, no socket, no HTTP/1 parser".into(),
+                "the oracle is the framework's own extractor (web::Json<Value>, web::Query<Value>, axum::Json<Value>) composed with deserr::deserialize: a defect shared by deserr::deserialize and the extractors is out of scope here (C01..C14 cover deserialize)".into(),
+                "actix-web is built without its compress-* features, so Content-Encoding handling is not exercised".into(),
+                "QueryParamError has no ResponseError impl in deserr; it is exercised through a local delegating wrapper (400 + message)".into(),
+            ],
+        },
+    );
+    std::process::exit(code);
+}
